@@ -298,6 +298,25 @@ func TestC16Sequences(t *testing.T) {
 		}
 		run.Case("same-printed-type-name-in-two-packages", true)
 	}
+	// names that are spelled like two other names joined by something (an arrow, a colon, nothing
+	// at all ...): every sequence of three registrations over ten pairs of such names. A pair of
+	// names is a pair, however its members are spelled.
+	for _, sep := range []string{"->", "→", ":", "|", "/", "", " ", ",", "=>", "\x00", ".", "-"} {
+		a, b, c := "a", "b", "c"
+		ab, bc := a+sep+b, b+sep+c
+		pairs := [][2]string{{ab, c}, {bc, a}, {a, bc}, {c, ab}, {a, b}, {b, c}, {c, a}, {ab, bc}, {bc, ab}, {b, a}}
+		for x := range pairs {
+			for y := range pairs {
+				for z := range pairs {
+					idx++
+					if !run.Mine(idx) {
+						continue
+					}
+					runSeq(run, []op{{K: "reg", From: pairs[x][0], To: pairs[x][1]}, {K: "reg", From: pairs[y][0], To: pairs[y][1]}, {K: "reg", From: pairs[z][0], To: pairs[z][1]}}, "joined"+sep)
+				}
+			}
+		}
+	}
 	run.Count("exhaustive_sequences", int64(idx))
 	run.Exhaustive(true)
 	// very long version chains: the back edge must still be rejected, the forward shortcut accepted
@@ -541,6 +560,42 @@ func TestC16Termination(t *testing.T) {
 		watchdog.Exit()
 	})
 	defer dog.Stop()
+	// upcasters that look things up on the bus they serve: the first step of a chain reads the
+	// history (a nested upcasting replay, a plain replay, or both) before it converts; applying
+	// the chain still terminates with the composed result
+	if run.Shard == 0 {
+		for mode := 0; mode < 3; mode++ {
+			cur = fmt.Sprintf("chain A -> B -> C whose first upcaster runs a nested replay (mode %d) on the same bus", mode)
+			dog.Case(cur)
+			store := ebu.NewMemoryStore()
+			bus := ebu.New(ebu.WithStore(store))
+			depth, nestedSeen := 0, 0
+			ebu.RegisterUpcastFunc(bus, "A", "B", func(d json.RawMessage) (json.RawMessage, string, error) {
+				if depth == 0 {
+					depth++
+					if mode != 1 {
+						bus.ReplayWithUpcast(context.Background(), ebu.OffsetOldest, func(*ebu.StoredEvent) error { nestedSeen++; return nil })
+					}
+					if mode != 0 {
+						bus.Replay(context.Background(), ebu.OffsetOldest, func(*ebu.StoredEvent) error { nestedSeen++; return nil })
+					}
+					depth--
+				}
+				return d, "B", nil
+			})
+			ebu.RegisterUpcastFunc(bus, "B", "C", func(d json.RawMessage) (json.RawMessage, string, error) { return d, "C", nil })
+			for _, n := range []string{"A", "C", "A"} {
+				store.Append(context.Background(), &ebu.Event{Type: n, Data: json.RawMessage(`{}`)})
+			}
+			var types []string
+			err := bus.ReplayWithUpcast(context.Background(), ebu.OffsetOldest, func(e *ebu.StoredEvent) error { types = append(types, e.Type); return nil })
+			dog.Tick()
+			if err != nil || fmt.Sprint(types) != "[C C C]" || nestedSeen == 0 {
+				run.Violation("upcast-apply:upcaster-reading-history", fmt.Sprintf("%s: the outer replay returned %v and delivered types %v (want [C C C]); the nested replays delivered %d events", cur, err, types, nestedSeen), nil)
+			}
+			run.Case(cur, true)
+		}
+	}
 	nNames := run.Scale(3, 4)
 	names := []string{"A", "B", "C", "D"}[:nNames]
 	var edges [][2]string
